@@ -31,7 +31,9 @@ def build():
     return vc.cached_build("stubmods", [src], (vc.SAN, sorted(VARIANTS)), b)
 
 
-VARIANTS = {"full": [], "noctor": ["-DNO_CTOR"], "nopost": ["-DNO_POSTINIT"], "nodtor": ["-DNO_DTOR"]}
+VARIANTS = {"full": [], "noctor": ["-DNO_CTOR"], "nopost": ["-DNO_POSTINIT"], "nodtor": ["-DNO_DTOR"],
+            # "uses" calls a function that "provides" exports: the symbol can only be bound after the dependency is loaded
+            "uses": ["-DCALLS_DEP"], "provides": ["-DPROVIDES_FN"]}
 
 
 def install_modules(stubdir, moddir, variants):
@@ -249,6 +251,7 @@ def graph_s(draw, pid, tier, opts=None):
     if draw(st.integers(0, 2)) == 0:
         for n in draw(st.lists(st.sampled_from(names), min_size=1, max_size=2, unique=True)):
             variants[n] = draw(st.sampled_from(["noctor", "nopost", "nopost", "nodtor"]))
+    want_call = not variants and not cyclic and missing is None and draw(st.integers(0, 3)) == 0
     case = {"graph": graph, "list": lst, "missing": missing, "variants": variants}
     k = draw(st.integers(0, 3))
     if k == 0:
@@ -264,6 +267,11 @@ def graph_s(draw, pid, tier, opts=None):
         case["anti"] = anti
     if k in (0, 1) and draw(st.booleans()):
         case["backend"] = draw(st.lists(st.sampled_from(names), min_size=1, max_size=2, unique=True))
+    if want_call:
+        edges = [(a, b) for a in graph for b in graph[a]]      # dependencies declared by the dependent itself
+        if edges:
+            a, b = draw(st.sampled_from(edges))
+            case["variants"] = {a: "uses", b: "provides"}       # a calls a function exported by its dependency b
     return case
 
 
@@ -303,6 +311,11 @@ def enum_cases(tier):
                 for lst in itertools.permutations(names, k):
                     yield {"graph": graph, "list": list(lst), "missing": None}
             if n == 3 and not has_cycle(graph, names):
+                # every acyclic 3-module graph again with one dependent calling a function its dependency exports
+                for a in graph:
+                    for b in graph[a]:
+                        for lst in ([a], names, names[::-1]):
+                            yield {"graph": graph, "list": list(lst), "missing": None, "variants": {a: "uses", b: "provides"}}
                 # every acyclic 3-module graph again with one module lacking one optional entry point
                 for who in names:
                     for var in ("noctor", "nopost", "nodtor"):
